@@ -194,7 +194,7 @@ def correspond(ctx):
               (("ignore", ("star", ("word", "ab")), ("and", ("lit", "#"), ("word", "ab"))), {}, ["a #b", "a #b ", "#a b"], True),
               (("word", "ab"), {}, ["a\tb", "\ta", "a\t"], False), (("lineend",), {}, ["a\nb", "\n"], False)]
     entries = [("parse", False), ("parse", True), ("scan", None, False, True), ("scan", 2, False, True), ("scan", None, True, True),
-               ("scan", None, False, False)]
+               ("scan", None, False, False), ("transform",)]
     groups = [(g, env, inputs, [("none",)], entries) for (g, env, inputs, _) in cases]
     stats = {}
     recs = corr.run_groups(groups, stats=stats)
